@@ -34,7 +34,7 @@ InitState(n, bigk) ==
      open |-> FALSE, ix |-> EmptyIx, lp |-> 0, nv |-> 1, wseg |-> -1,
      pc |-> "idle", op |-> NoOp, v |-> 0, unref |-> <<>>, rolled |-> FALSE,
      ckPrev |-> 0, ckRet |-> "idle", replayed |-> 0, res |-> "none", resn |-> 0,
-     orph |-> {}, orphStg |-> 0,
+     orph |-> {}, orphStg |-> 0, rdr |-> [i \in {} |-> Absent],
      acked |-> EmptyIdx, infl |-> NoOp, used |-> {}, nops |-> 0, crashes |-> 0]
 
 DiskOf(s) == [settings |-> s.settings, stmp |-> s.stmp, snap |-> s.snap, snapTmp |-> s.snapTmp,
@@ -75,6 +75,14 @@ Begin(s, uop) ==
       [] uop.op = "open"  -> [s0 EXCEPT !.pc = "op_lock"]
       [] uop.op = "cleanup" -> [s0 EXCEPT !.pc = "cu_orphan"]
       [] uop.op = "close" -> [s0 EXCEPT !.pc = "cl_sync"]
+      \* C06: a reader keeps the open file of the content the key held when get_reader returned, whatever
+      \* happens to the key afterwards (overwrite, removal, reopen); it is drained later
+      [] uop.op = "rdopen" ->
+            IF s.ix.idx[uop.k] = Absent THEN [s0 EXCEPT !.pc = "ret", !.res = Absent]
+            ELSE [s0 EXCEPT !.pc = "ret", !.res = "ok", !.rdr = (uop.id :> s.ix.idx[uop.k]) @@ @]
+      [] uop.op = "rddrain" ->
+            [s0 EXCEPT !.pc = "ret", !.res = IF uop.id \in DOMAIN s.rdr THEN s.rdr[uop.id] ELSE Absent,
+                       !.rdr = [i \in DOMAIN s.rdr \ {uop.id} |-> s.rdr[i]]]
 
 (***************************************************************************)
 (* Checkpoint entry: WalManager::compute_checkpoint_target +               *)
@@ -220,7 +228,8 @@ DiskPath(s, uop) == PathFrom(Begin(s, uop), <<DiskOf(s)>>)
 (***************************************************************************)
 (* Environment: process kill.  Completed filesystem calls persist.         *)
 (***************************************************************************)
-CrashOf(s) == [VolatileReset(s) EXCEPT !.pc = "idle", !.op = NoOp, !.crashes = @ + 1, !.res = "crashed"]
+CrashOf(s) == [VolatileReset(s) EXCEPT !.pc = "idle", !.op = NoOp, !.crashes = @ + 1, !.res = "crashed",
+                                       !.rdr = [i \in {} |-> Absent]]
 
 (***************************************************************************)
 (* Properties, as predicates on a state record.                            *)
